@@ -63,12 +63,65 @@ func c14Seeds(s *refper.Schema, thorough bool) (seeds [][]byte, names []string) 
 	return
 }
 
+// c14NestedSeeds: reference encodings two structural choices away from the default where the second choice lies INSIDE
+// the first one: a CHOICE alternative (or a two-element list of a pair of alternatives) and, within the value that
+// alternative brought in, one further CHOICE alternative (GlobalRANNodeID -> ng-eNB -> short macro id). They get the
+// cheap structure-preserving corruptions only.
+func c14NestedSeeds(s *refper.Schema) (seeds [][]byte) {
+	codec := &refper.Codec{S: s}
+	seen := map[string]bool{}
+	structural := func(lb string) bool {
+		return strings.HasSuffix(lb, "#alt") || strings.HasSuffix(lb, "#mixed-pair")
+	}
+	for _, m := range ngapgen.Messages(s) {
+		if !ngapgen.New(s, nil).Usable(m.Type) {
+			continue
+		}
+		base := explore.Replay(nil)
+		ngapgen.New(s, base).PDU(m)
+		for i, lb := range base.Labels {
+			if !structural(lb) {
+				continue
+			}
+			for a := 1; a < base.Arity[i]; a++ {
+				p1 := append(append([]int{}, base.Picks[:i]...), a)
+				c1 := explore.Replay(p1)
+				ngapgen.New(s, c1).PDU(m)
+				scope := lb[:strings.LastIndex(lb, "#")]
+				for j := i + 1; j < len(c1.Labels); j++ {
+					if !strings.HasSuffix(c1.Labels[j], "#alt") || !strings.HasPrefix(c1.Labels[j], scope) {
+						continue
+					}
+					for b := 1; b < c1.Arity[j]; b++ {
+						p2 := append(append([]int{}, c1.Picks[:j]...), b)
+						c2 := explore.Replay(p2)
+						g := ngapgen.New(s, c2)
+						node := g.PDU(m)
+						if g.OutsideRoot {
+							continue
+						}
+						if enc, err := codec.Encode("NGAPPDU", refper.PDUTag, node); err == nil && len(enc) <= 4096 && !seen[string(enc)] {
+							seen[string(enc)] = true
+							seeds = append(seeds, enc)
+						}
+					}
+				}
+			}
+		}
+	}
+	return
+}
+
 // c14rewrap: structure-preserving corruption. An NGAP PDU is choice(1) procedureCode(1) criticality(1) length value,
 // and the value of every message is preamble(1) ieCount(2) { id(2) criticality(1) length value }*. For every IE and
 // every position inside its value a run of adversarial octets is inserted and the two enclosing length determinants
 // are RE-COMPUTED, so that the inner decoder really reaches the run (a run inserted blindly is cut off by the
 // enclosing open-type length). Returns nil when the seed does not have that shape.
 func c14rewrap(seed []byte, runs []int, seen map[string]bool, emit func([]byte)) {
+	c14rewrapN(seed, runs, seen, emit, true)
+}
+
+func c14rewrapN(seed []byte, runs []int, seen map[string]bool, emit func([]byte), full bool) {
 	det := func(b []byte) (n, w int, ok bool) { // general length determinant, unfragmented forms
 		if len(b) == 0 {
 			return 0, 0, false
@@ -162,6 +215,9 @@ func c14rewrap(seed []byte, runs []int, seen map[string]bool, emit func([]byte))
 			rebuild(i, append([]byte{}, ies[i].val[:len(ies[i].val)-k]...))
 		}
 	}
+	if !full {
+		return
+	}
 	for i := range ies {
 		for pos := 0; pos <= len(ies[i].val); pos++ {
 			for _, b := range []byte{0xc4, 0xc1, 0xff, 0x80} {
@@ -233,7 +289,7 @@ func runC14(ctx *Ctx) {
 	if ctx.Thorough {
 		pairAlphabet, maxGap = []byte{0x00, 0x01, 0x7f, 0x80, 0x81, 0xbf, 0xc0, 0xc1, 0xc4, 0xc5, 0xfe, 0xff}, 6
 	}
-	r.Rule = fmt.Sprintf("(a) every octet string of length 0..%d; (b) for each of %d seeds (reference encodings of every message type%s): every prefix, every single-octet substitution (len x 255), every single-bit flip, every 2-octet length form {8000,bfff,c4ff,ffff} at every position, runs of 6..200 (thorough: 2..3900) octets c4 / c1 / ff / 80 inserted at every position, the same runs (8 and 64 octets; thorough 2..1000) inserted at every position inside every IE value of every message and CHOICE alternative with the two enclosing length determinants re-computed, every IE value cut to 0..3 octets (last octet also adversarial) or short of its last 1..3 octets or replaced by each single octet with the lengths re-computed, every pair of octets up to %d positions apart replaced by every pair from a %d-value adversarial alphabet (unknown identifiers x fragmented / overlong / zero length determinants)%s; (d) for every procedure code 0..63 and 255 (thorough: all 256) x {initiating, successful, unsuccessful}: container header {000000, 000001} followed by every string of <=4 (thorough: 5 for codes 0..63 and 255) octets over {00,01,02,03,40,80,82,ff}, outer length computed (messages no seed exists for, e.g. PRIVATE MESSAGE); "+
+	r.Rule = fmt.Sprintf("(a) every octet string of length 0..%d; (b) for each of %d seeds (reference encodings of every message type%s): every prefix, every single-octet substitution (len x 255), every single-bit flip, every 2-octet length form {8000,bfff,c4ff,ffff} at every position, runs of 6..200 (thorough: 2..3900) octets c4 / c1 / ff / 80 inserted at every position, the same runs (8 and 64 octets; thorough 2..1000) inserted at every position inside every IE value of every message and CHOICE alternative with the two enclosing length determinants re-computed, every IE value cut to 0..3 octets (last octet also adversarial) or short of its last 1..3 octets (these two also on encodings with a CHOICE alternative nested inside another non-default alternative or inside a mixed pair) or replaced by each single octet with the lengths re-computed, every pair of octets up to %d positions apart replaced by every pair from a %d-value adversarial alphabet (unknown identifiers x fragmented / overlong / zero length determinants)%s; (d) for every procedure code 0..63 and 255 (thorough: all 256) x {initiating, successful, unsuccessful}: container header {000000, 000001} followed by every string of <=4 (thorough: 5 for codes 0..63 and 255) octets over {00,01,02,03,40,80,82,ff}, outer length computed (messages no seed exists for, e.g. PRIVATE MESSAGE); "+
 		"oracle: ngap.Decoder returns (value|error) - no panic, per-call allocation <= %d MiB (schema-legal maximum is ~15 MiB for a 65535-element IE list), per-call CPU time below a %v horizon; each input is decoded in a shard process with an address-space limit; distinct = distinct inputs (hashed); non-trivial = all",
 		maxLen, len(seeds), map[bool]string{true: " and of every value one CHOICE alternative / IE selection away", false: ""}[ctx.Thorough], maxGap, len(pairAlphabet),
 		map[bool]string{true: ", every pair of bit flips in the first 24 octets", false: ""}[ctx.Thorough], c14AllocBound>>20, c14Horizon)
@@ -406,6 +462,11 @@ func runC14(ctx *Ctx) {
 	for _, seed := range altSeeds {
 		c14rewrap(seed, rewrapRuns, seenIE, feed)
 	}
+	nested := c14NestedSeeds(s)
+	for _, seed := range nested {
+		c14rewrapN(seed, nil, seenIE, feed, false)
+	}
+	r.Add("nested_choice_seeds", int64(len(nested)))
 	// (d) skeletons of messages no seed exists for (the repository's encoder cannot build them, or the type is not in the
 	// schema at all): for every procedure code and PDU kind a body made of a container header and every string of up to
 	// skelFree octets over a small alphabet of structure-bearing values (choice / extension bits, small lengths and
